@@ -641,6 +641,9 @@ class Interp:
         if isinstance(v, SObj):
             return self.obj_getattr(v, name, node)
         if isinstance(v, SModule):
+            mk = ("modattr", v.live.__name__, name)
+            if mk in self.ctx.ghost:
+                return self.ctx.ghost[mk]
             try:
                 return self.reflect(getattr(v.live, name), name)
             except AttributeError:
@@ -753,6 +756,10 @@ class Interp:
             v.fields[name] = val
             return
         if isinstance(v, SOpaque):
+            return
+        if isinstance(v, SModule):
+            # assignment to a module attribute (sys.stdout = ...): path-local ghost binding
+            self.ctx.ghost[("modattr", v.live.__name__, name)] = val
             return
         raise Unsupported(f"setattr on {v!r}")
 
@@ -1042,6 +1049,7 @@ class Interp:
         raise PyExc(v.cands[0], v, "", f"line {s.lineno}")
 
     _active_exc = None
+    _inflight = None
 
     def exec_Try(self, s, frame):
         try:
@@ -1069,9 +1077,14 @@ class Interp:
             if s.finalbody:
                 # `finally` runs on every interpreted exit (normal, PyExc, return, break,
                 # continue) but NOT on engine-level unwinding (Infeasible / Unsupported / PathEnd)
-                et = sys.exc_info()[0]
+                et, ev = sys.exc_info()[:2]
                 if et is None or issubclass(et, (PyExc, ReturnSig, BreakSig, ContinueSig)):
-                    self.exec_block(s.finalbody, frame)
+                    saved_inflight = self._inflight
+                    self._inflight = ev if isinstance(ev, PyExc) else None
+                    try:
+                        self.exec_block(s.finalbody, frame)
+                    finally:
+                        self._inflight = saved_inflight
 
     def handler_matches(self, h, e, frame):
         if h.type is None:
